@@ -339,6 +339,15 @@ def c08(rec, table=None):
             break
     if (float(res.fun) != float(res.fun) or float(res.maxcv) != float(res.maxcv)) and bool(res.success):
         out.append(V("nan-success", f"success=True with fun={res.fun} maxcv={res.maxcv}"))
+    # ... also when the code itself reports a finite value: judged on the true values logged by the harness
+    if bool(res.success):
+        table = table or eval_table(rec)
+        xr = np.asarray(res.x, float)
+        rows = [r for r in table if r["x"] is not None and r["complete"] and e1.same_bits(r["x"], xr)]
+        if rows and all((r["v"] is not None and r["v"] != r["v"]) or (r["f"] != r["f"]) for r in rows):
+            out.append(V("nan-success:true-values",
+                         f"success=True although the objective or the violation at the returned point is NaN "
+                         f"(reported fun={res.fun}, maxcv={res.maxcv})"))
     for m in rec.notes.get("models", []):
         if not math.isfinite(m["res"]):
             out.append(V("models-nonfinite", "a model takes a non-finite value at an interpolation point"))
